@@ -944,7 +944,13 @@ impl<'a> Builder<'a> {
                     .filter(|i| {
                         let n = &pool.nodes[*i];
                         let d = n.get_node_dependencies();
-                        d.len() == 2 && d[0] != d[1] && n.get_graph_dependencies().is_empty()
+                        // ApplyPermutation is left out: swapping would make a data operand (possibly
+                        // private) the permutation, which is open finding F-C01-1 and is excluded
+                        // by construction everywhere else (only the pinned case exercises it)
+                        d.len() == 2
+                            && d[0] != d[1]
+                            && n.get_graph_dependencies().is_empty()
+                            && !matches!(n.get_operation(), ciphercore_base::graphs::Operation::ApplyPermutation(_))
                     })
                     .collect();
                 if cands.is_empty() {
